@@ -168,7 +168,9 @@ func TestC15_Renderings(t *testing.T) {
 		root := uni.GenDatum(t, p)
 		g := gen.NewExprGen(t, root, "")
 		var e bx.Expr
-		if rapid.Bool().Draw(t, "free") {
+		if rapid.IntRange(0, 9).Draw(t, "long") == 0 {
+			e = gen.FreeLong(t)
+		} else if rapid.Bool().Draw(t, "free") {
 			// free trees, bare keywords admitted as names: PEG ordered choice decides how they read
 			e = gen.FreeExprKW(t, rapid.IntRange(1, 4).Draw(t, "depth"))
 		} else {
@@ -176,6 +178,9 @@ func TestC15_Renderings(t *testing.T) {
 		}
 		rend := bx.NewRenderer(chooser(t))
 		rend.MaxParen = 2
+		if bx.Depth(e) > 12 {
+			rend.MaxParen = 0 // every parenthesis level multiplies the parse cost of what it encloses by 4
+		}
 		text, _ := rend.Render(e)
 		muts := rapid.IntRange(0, 3).Draw(t, "mutations")
 		toks := lexTokens(text)
